@@ -25,7 +25,7 @@ ASSIGN = ("set", "setitem", "setcfg", "itemset", "cmdline")
 
 
 def bounds(tier):
-    leaves = list(W.catalogue()) if tier == "thorough" else W.quick_leaves() + ["list-int-cd", "dict-typed-cd", "int-cd", "challenge-dflt", "list-any-dflt", "challenge-counter"]
+    leaves = list(W.catalogue()) if tier == "thorough" else W.quick_leaves() + ["list-int-cd", "dict-typed-cd", "int-cd", "challenge-dflt", "list-any-dflt", "challenge-counter", "int-cd-partial", "list-int-cd-object", "dict-typed-cd-partial"]
     return {"shapes": ["flat", "nested", "cfglist", "dynamic", "nested-v"], "leaves": leaves, "depth": 4 if tier == "thorough" else 2, "depth_note": "thorough: 4 for the core leaves, 3 for the other quick-tier leaves, 2 for the rest"}
 
 
@@ -236,7 +236,7 @@ class Monitor:
             if stray:
                 self.bad(ctx, "reset-touches-other", "after %s, reset(%s) also changed %s" % (hist, path, stray), hist, op)
             return
-        if op[0] in ("set", "setitem", "load_tree", "loads", "setcfg") and f is not None:
+        if op[0] in ("set", "setitem", "load_tree", "loads", "setcfg", "cmdline") and f is not None:
             # the field a value was successfully assigned / loaded for is user-defined, and so is every
             # enclosing sub-configuration key on a tree route
             try:
